@@ -1,3 +1,4 @@
+import Alpen.Model.Busy
 import Alpen.Generated
 import Alpen.Model.WorldOps
 import Alpen.Lemmas.World
@@ -231,5 +232,44 @@ theorem C01_split_race :
   · decide
   · decide
   · decide
+
+/-! ### dispatch across passes (state kept between update iterations) -/
+
+theorem all_zero_get (l : List Nat) (h : l.all (· == 0) = true) (i n : Nat) (hi : l[i]? = some n) : n = 0 := by
+  have hm : n ∈ l := List.mem_of_getElem? hi
+  have := (List.all_eq_true.mp h) n hm
+  simpa using this
+
+/-- **no second dispatch while a transfer is in flight**: whatever stage the earlier transfer of the group is at, the pass
+    dispatches nothing for the group -/
+theorem C01_no_second_dispatch_in_flight (q : GroupQueues) (t : InFlight) (h : t.accountedIn q) (reqs : List Nat) :
+    dispatchPass q reqs = [] := by
+  unfold dispatchPass
+  have : q.idle = false := by
+    unfold GroupQueues.idle
+    cases t with
+    | searching =>
+      simp only [InFlight.accountedIn] at h
+      have : (q.groupFifo == 0) = false := by simp; omega
+      simp [this]
+    | pulling i =>
+      obtain ⟨n, hn, hpos⟩ := h
+      cases hall : q.nodeFifos.all (· == 0) with
+      | false => simp
+      | true =>
+        have := all_zero_get q.nodeFifos hall i n hn
+        omega
+  simp [this]
+
+/-- the pinned rule dispatched again while the search of the earlier dispatch was still in the group's FIFO -/
+theorem C01_legacy_dispatches_during_search :
+    ∃ q reqs, InFlight.searching.accountedIn q ∧ dispatchPassLegacy q reqs ≠ [] := by
+  refine ⟨⟨1, [0]⟩, [7], ?_, ?_⟩
+  · simp [InFlight.accountedIn]
+  · decide
+
+example : dispatchPass ⟨0, [0, 0]⟩ [3, 5] = [3, 5] := by decide
+example : dispatchPass ⟨0, [0, 2]⟩ [3, 5] = [] := by decide
+
 
 end Alpen
